@@ -257,6 +257,11 @@ func (p *c20) Run(raw json.RawMessage) eng.Result {
 	decode(raw, &c)
 	var res eng.Result
 	ss := &sigSet{res: &res}
+	if c.Part != "race" {
+		// the cooperative scheduler runs one goroutine at a time: with one P a hand-off stays on
+		// the thread instead of waking another one (the case runs in a worker process of its own)
+		defer runtime.GOMAXPROCS(runtime.GOMAXPROCS(1))
+	}
 	switch c.Part {
 	case "schedules", "schedule":
 		m := model.Schema("shared") // one module per scenario, shared by its threads only
